@@ -60,18 +60,21 @@ theorem sendData_SendEq (s : S) (d : Bytes) (sync : Bool) (chop : Nat) : SendEq 
       · exact emit_SendEq _ _
       · exact emit_SendEq _ _
 
+theorem drawKey_SendEq (s : S) : SendEq s (drawKey s).1 := by
+  unfold drawKey
+  split
+  · unfold SendEq; rfl
+  · exact SendEq.refl _
+
+theorem recordOp_SendEq (s : S) (op : Nat) : SendEq s (recordOp s op) := by unfold SendEq recordOp; rfl
+
 theorem sendFrame_SendEq (s : S) (opcode : Nat) (pl : Bytes) (fin : Bool) (rsv : Nat) (sync : Bool) (chop : Nat) :
     SendEq s (sendFrame s opcode pl fin rsv sync chop) := by
   unfold sendFrame
+  dsimp only
   split
-  rename_i s' key heq
-  have h0 : SendEq s s' := by
-    split at heq <;> cases heq
-    · unfold SendEq; rfl
-    · exact SendEq.refl _
-  split
-  · exact h0.trans (emit_SendEq _ _)
-  · exact h0.trans (sendData_SendEq _ _ _ _)
+  · exact (drawKey_SendEq s).trans (emit_SendEq _ _)
+  · exact (drawKey_SendEq s).trans ((recordOp_SendEq _ _).trans (sendData_SendEq _ _ _ _))
 
 theorem sendPing_SendEq (s : S) (pl : Bytes) : SendEq s (sendPing s pl) := by
   unfold sendPing
